@@ -13,6 +13,30 @@ use tendril::StrTendril;
 const PIECES: &[&str] = &["", "a", "b", "<", "&", "\r", "\n", "\0", " ", "\t", "!", "-", "--", "é", "日本", "\u{10ffff}", "ab", "doctype", "DOC", "TYPE", "public", "PUB", "LIC", "[CDATA[", "[CD", "ATA[", "xyz", "0123456789", "<!--", ">", "=", "\"", "'", "abcdefghijklmnopqrstuvwxyz"];
 const PATTERNS: &[&str] = &["--", "doctype", "public", "system", "[CDATA[", "a", "ab", "<!--", "DOCTYPE", "x", "0123", "-"];
 
+/// multi-byte characters whose encodings end in / contain the extreme continuation bytes 0x80 and
+/// 0xBF and every lead-byte class, to sit directly in front of set members
+const EDGE_CHARS: &[char] = &['\u{80}', '\u{bf}', '\u{c0}', '\u{ff}', '\u{13f}', '\u{7ff}', '\u{800}', '\u{fff}', '\u{ffff}', '\u{10000}', '\u{3ffff}', '\u{10ffff}', '\u{7f}', '@', 'A', 'z', '~'];
+
+/// a piece over the whole alphabet: every character below 64 (all possible set members), letters,
+/// and the edge characters above; up to 40 characters so that word-sized scanning has blocks to skip
+fn rand_piece(rng: &mut Rng) -> String {
+    let n = match rng.below(4) {
+        0 => rng.range(1, 3),
+        1 => rng.range(7, 10),
+        _ => rng.range(1, 40),
+    };
+    let mut s = String::new();
+    let dense = rng.chance(1, 2);
+    for _ in 0..n {
+        match rng.below(if dense { 3 } else { 8 }) {
+            0 => s.push(char::from_u32(rng.below(64) as u32).unwrap()),
+            1 => s.push(*rng.pick(EDGE_CHARS)),
+            _ => s.push((b'a' + rng.below(26) as u8) as char),
+        }
+    }
+    s
+}
+
 fn rand_set(rng: &mut Rng) -> SmallCharSet {
     let mut bits = 0u64;
     match rng.below(4) {
@@ -56,7 +80,11 @@ pub fn run_history(rng: &mut Rng, nops: usize, st: &mut Stats) -> Result<usize, 
             0 | 1 | 2 => {
                 let mut s = String::new();
                 for _ in 0..rng.below(4) {
-                    s.push_str(rng.pick_s(PIECES));
+                    if rng.chance(1, 3) {
+                        s.push_str(&rand_piece(rng));
+                    } else {
+                        s.push_str(rng.pick_s(PIECES));
+                    }
                 }
                 log.push(format!("#{opno} push_back({s:?})"));
                 q.push_back(StrTendril::from_slice(&s));
@@ -67,7 +95,7 @@ pub fn run_history(rng: &mut Rng, nops: usize, st: &mut Stats) -> Result<usize, 
                 st.count("op:push_back");
             },
             3 => {
-                let s = rng.pick_s(PIECES).to_string();
+                let s = if rng.chance(1, 3) { rand_piece(rng) } else { rng.pick_s(PIECES).to_string() };
                 log.push(format!("#{opno} push_front({s:?})"));
                 q.push_front(StrTendril::from_slice(&s));
                 if !s.is_empty() {
@@ -139,11 +167,31 @@ pub fn run_history(rng: &mut Rng, nops: usize, st: &mut Stats) -> Result<usize, 
                 st.count("op:pop_except_from");
             },
             10 | 11 => {
-                let pat = rng.pick_s(PATTERNS);
+                let cat: String = m.iter().map(|s| s.as_str()).collect();
+                // a fixed keyword, or a pattern cut from what is actually queued (exact, with one
+                // letter's case flipped, with the last character changed, or one character too long)
+                let derived: String;
+                let pat: &str = if !cat.is_empty() && rng.chance(1, 3) {
+                    let k = rng.range(1, 12);
+                    let mut p: String = cat.chars().take(k).collect();
+                    match rng.below(5) {
+                        0 => p = p.chars().map(|c| if c.is_ascii_lowercase() { c.to_ascii_uppercase() } else { c.to_ascii_lowercase() }).collect(),
+                        1 => {
+                            p.pop();
+                            p.push('#');
+                        },
+                        2 => p.push('z'),
+                        _ => {},
+                    }
+                    derived = p;
+                    st.count("eat_patterns_cut_from_the_queue");
+                    &derived
+                } else {
+                    rng.pick_s(PATTERNS)
+                };
                 let ci = rng.chance(1, 2);
                 log.push(format!("#{opno} eat({pat:?}, ci={ci})"));
                 let got = if ci { q.eat(pat, u8::eq_ignore_ascii_case) } else { q.eat(pat, u8::eq) };
-                let cat: String = m.iter().map(|s| s.as_str()).collect();
                 let cb = cat.as_bytes();
                 let mut want = Some(true);
                 for (k, pb) in pat.bytes().enumerate() {
@@ -262,7 +310,7 @@ pub fn run(args: &Args) -> (Meta, Stats) {
     });
     let mut m = super::meta(
         args,
-        "random interleavings of push_back / push_front / next / peek / pop_except_from / eat / pop_front / is_empty over random partitions of text (ASCII specials below 64, multi-byte characters, look-ahead keywords split across 1-4 buffers), random SmallCharSets (the tokenizer's sets and arbitrary 64-bit sets), exact and ASCII-case-insensitive comparators; every return value is compared with a VecDeque<String> model (eat decided on the concatenation) and the drained remainder must equal the model (nothing lost, duplicated or reordered). The harness is also built with debug assertions in the 'checked' profile and run under Miri/ASan by the sanitizer legs. Each history is a distinct case (hash = its seed).",
+        "random interleavings of push_back / push_front / next / peek / pop_except_from / eat / pop_front / is_empty over random partitions of text (every character below 64, multi-byte characters incl. those whose encodings end in 0x80/0xBF placed next to set members, runs of up to 40 characters, look-ahead keywords split across 1-4 buffers), random SmallCharSets (the tokenizer's sets and arbitrary 64-bit sets), exact and ASCII-case-insensitive comparators; every return value is compared with a VecDeque<String> model (eat decided on the concatenation) and the drained remainder must equal the model (nothing lost, duplicated or reordered). The harness is also built with debug assertions in the 'checked' profile and run under Miri/ASan by the sanitizer legs. Each history is a distinct case (hash = its seed).",
         &["the empty pattern is not exercised (eat on an empty queue returns need-more before looking at the pattern)"],
     );
     if !sanit {
